@@ -107,7 +107,14 @@ def _shape_check_numvar(R, prog):
                 if not (isinstance(t, ast.Attribute) and t.attr == "_numvar"):
                     continue
                 sites += 1
-                owner_ok = fi.cls is not None and BASE.get(fi.module.name) == fi.cls.name and \
+                # the two base classes and the classes they inherit from (a counter mixin pulled up out of them) own the field
+                owners = set()
+                for bm, bn in BASE.items():
+                    try:
+                        owners |= {(c.module.name, c.name) for c in prog.mro(prog.cls(bm, bn))}
+                    except AnalysisError:
+                        owners.add((bm, bn))
+                owner_ok = fi.cls is not None and (fi.cls.module.name, fi.cls.name) in owners and \
                     isinstance(t.value, ast.Name) and t.value.id == "self"
                 if not owner_ok:
                     R.bad(F("NUMVAR-MONOTONE", fi, "write to ._numvar outside BaseCNF/BaseOPB",
